@@ -22,6 +22,17 @@ func AnyToInt64(value any) int64 {
 	return value.(int64)
 }
 
+// AnyAsInt64 converts a numeric value to int64. The second return value is false
+// when the given value isn't numeric.
+func AnyAsInt64(value any) (int64, bool) {
+	switch value.(type) {
+	case int, int8, int16, int32, int64, float32, float64:
+		return AnyToInt64(value), true
+	}
+
+	return 0, false
+}
+
 func ToPtr[T any](v T) *T {
 	return &v
 }
